@@ -1,6 +1,7 @@
 """C06 (frame clause, two more ways a call can fail to "leave the registry exactly as it was") — oracle streams on the real code.
 
-(1) REJECTED CONSTRUCTORS.  The built-in metric classes register themselves from inside their constructor ("including the
+(1) REJECTED CONSTRUCTORS (by the class's own argument checks, by a clash, or by the environment: the value store
+    cannot be allocated — OSError from the value class, as with a missing multiprocess directory).  The built-in metric classes register themselves from inside their constructor ("including the
     built-in metric classes registering themselves" in the quantifier).  A constructor call that raises — for whatever reason:
     a clash, or arguments the class rejects — must leave the registry exactly as it was: same registered collectors, same
     name map, same target info, and collect() / both expositions still work.  Every class x every argument shape the class
@@ -101,10 +102,20 @@ def run_ctor_case(case):
     if 'labelnames' in kw:
         kw['labelnames'] = [case['name'] if l == 'NAME' else l for l in kw['labelnames']]
     raised = None
+    from prometheus_client import values as pv
+    saved_vc = pv.ValueClass
+    if case.get('alloc_fails'):
+        # the ENVIRONMENT rejects the construction: allocating the metric's value fails (multiprocess directory missing or
+        # unwritable, out of file space) — the constructor raises OSError; the caller catches it.  Same frame obligation.
+        def failing_value(*a, **k):
+            raise OSError(2, 'No such file or directory (injected: value store cannot be allocated)')
+        pv.ValueClass = failing_value
     try:
         getattr(pc, case['cls'])(case['name'], 'help', registry=reg, **kw)
     except Exception as e:       # noqa
         raised = type(e).__name__
+    finally:
+        pv.ValueClass = saved_vc
     fails = []
     if raised is not None:
         after = _snapshot(reg)
@@ -187,6 +198,8 @@ def run_alias_case(case):
 CTOR_CORPUS = [
     {'pre': [], 'ti': None, 'cls': 'Enum', 'name': 'e', 'kw': {}},
     {'pre': [['Counter', 'x']], 'ti': {'a': 'b'}, 'cls': 'Enum', 'name': 'e', 'kw': {'states': ['a'], 'labelnames': ['NAME']}},
+    {'pre': [], 'ti': None, 'cls': 'Counter', 'name': 'y', 'kw': {}, 'alloc_fails': True},
+    {'pre': [['Gauge', 'x']], 'ti': None, 'cls': 'Histogram', 'name': 'y', 'kw': {}, 'alloc_fails': True},
 ]
 ALIAS_CORPUS = [
     {'labels': {'a': 'b'}, 'mut': 'clear', 'then': [['set', {}], ['reg', 'Gauge', 'target_info'], ['set', {'x': 'y'}], ['collect']]},
@@ -217,6 +230,10 @@ def run(ctx):
         pre = [[rng.choice(['Counter', 'Gauge', 'Summary', 'Histogram', 'Info', 'Enum']), rng.choice(NAMES[:6])] for _ in range(rng.randrange(4))]
         cases.append({'pre': pre, 'ti': rng.choice([None, None, {'a': 'b'}]), 'ad': rng.random() < 0.3,
                       'cls': cls, 'name': rng.choice(NAMES), 'kw': kw})
+    # every ACCEPTED shape again with a value store that cannot be allocated (error path of the environment)
+    for c in [c for c in cases if c['cls'] in ('Counter', 'Gauge', 'Summary', 'Histogram')][:]:
+        if rng.random() < 0.5 or not c['pre']:
+            cases.append(dict(c, alloc_fails=True))
     for case in cases:
         raised, fails = run_ctor_case(case)
         n_ctor += 1
